@@ -848,7 +848,14 @@ def gen_servers(ctx):
     servers = []
     KEX = ['curve25519-sha256']
 
+    # the probe runs over the first key exchange of the server's list that the tool can start: every such key exchange is used (one class per name in kexdh.py)
+    KEX_POOL = [['curve25519-sha256'], ['curve25519-sha256@libssh.org'], ['ecdh-sha2-nistp256'], ['ecdh-sha2-nistp384'], ['ecdh-sha2-nistp521'], ['diffie-hellman-group14-sha256'],
+                ['diffie-hellman-group14-sha1'], ['diffie-hellman-group16-sha512'], ['diffie-hellman-group18-sha512'], ['diffie-hellman-group1-sha1'],
+                ['sntrup761x25519-sha512@openssh.com', 'ecdh-sha2-nistp384', 'curve25519-sha256'], ['mlkem768x25519-sha256', 'kex-strict-s-v00@openssh.com', 'ecdh-sha2-nistp521']]
+
     def mk(keys, answers, meta, kex=None, refuse_after=None, tag='x'):
+        if kex is None and tag != 'corpus' and len(servers) % 3 == 2:
+            kex = KEX_POOL[(len(servers) // 3) % len(KEX_POOL)]
         servers.append({'kex': kex or KEX, 'keys': keys, 'answers': answers, 'meta': meta, 'refuse_after': refuse_after, 'tag': tag})
     # corpus: the witnesses of the repaired defect C11-F1 (sizes that used to be rounded up across a threshold) first
     for bits in (2047, 2046, 2040, 3071, 3064, 1032, 2048, 3072, 1024):
